@@ -219,6 +219,8 @@ pub fn fork_stream(timeout_ms: i32, f: impl FnOnce(i32)) -> (Vec<Value>, End) {
     unsafe { libc::close(fds[0]) };
     let end;
     if timed_out {
+        let sys = std::fs::read_to_string(format!("/proc/{}/syscall", pid)).unwrap_or_default();
+        LAST_TIMEOUT_SYSCALL.with(|c| *c.borrow_mut() = sys);
         unsafe {
             libc::kill(pid, libc::SIGKILL);
             let mut st = 0;
@@ -281,4 +283,13 @@ pub fn ignore_sigpipe() {
         sa.sa_sigaction = libc::SIG_IGN;
         libc::sigaction(libc::SIGPIPE, &sa, std::ptr::null_mut());
     }
+}
+
+thread_local! {
+    static LAST_TIMEOUT_SYSCALL: std::cell::RefCell<String> = const { std::cell::RefCell::new(String::new()) };
+}
+
+/// `/proc/<pid>/syscall` of the last child that hit the watchdog in `fork_stream`.
+pub fn last_timeout_syscall() -> String {
+    LAST_TIMEOUT_SYSCALL.with(|c| c.borrow().clone())
 }
